@@ -13,7 +13,7 @@ from vt.mon import contracts
 PROP = 'C03'
 TITLE = 'subset construction'
 SHARDS = {'quick': 8, 'thorough': 32}
-TIMEOUT = {'quick': 600, 'thorough': 3000}
+TIMEOUT = {'quick': 420, 'thorough': 3000}
 REQUIRED = ['nfa_to_dfa', 'nfa2dfa_command']
 EXHAUSTIVE_NOTE = 'all NFAs with <=2 states over <=2 symbols plus epsilon are enumerated completely; larger NFAs are sampled'
 RULE = ('cases are NFAs (complete enumeration <=2 states/<=2 symbols+eps, seeded random <=7 states, hostile families incl. Sigma empty, '
